@@ -36,7 +36,9 @@ META = dict(
     bounds=['parent pooled or not, flows {1}/{2}/{1,2}; command flows all / '
             '{1} / {2}', 'child c@2: atom unsatisfied / natural / forced, '
             'waiting or running, flows {1}/{2}/{1,2}', 'child b@3: a@2 atom x '
-            '3 states, a:x@3 atom natural or not'],
+            '3 states, a:x@3 atom natural or not', 'fixture "remove2": child f@2 '
+            'with three separate prerequisites on a@2 (x, succeeded, started), '
+            'each atom in 3 states'],
     stubs=['scheduler stand-in (pool, config, data_store_mgr, kill_tasks '
            'recorded)', 'workflow_db_mgr.remove_task_from_flows -> recorded, '
            'returns the flows asked for'],
@@ -152,6 +154,53 @@ def _run(parent_in, pf, rm, c_sat, c_run, cf, b_a2, b_x3, bf):
         t is b2 for t in pool.get_tasks())
 
 
+CFG2 = fx.cfg('remove2')
+
+
+def _multi(s_x, s_suc, s_sta, parent_in):
+    """A child with three separate prerequisites on the removed task."""
+    pool = fx.pool(CFG2)
+    db = pool.workflow_db_mgr
+    db.__dict__['remove_task_from_flows'] = (
+        lambda cycle, name, fnums: set(fnums) or {1})
+    schd = NS(pool=pool, config=CFG2, workflow_db_mgr=db,
+              data_store_mgr=pool.data_store_mgr,
+              kill_tasks=lambda ts, warn=True: None)
+    a = fx.itask(CFG2, 'a', 2)
+    f = fx.itask(CFG2, 'f', 2)
+    f.state.is_runahead = False
+    pool.add_to_pool(f)
+    if parent_in:
+        pool.add_to_pool(a)
+    states = {'xx': SAT[s_x], 'succeeded': SAT[s_suc], 'started': SAT[s_sta]}
+    for pre in f.state.prerequisites:
+        for k in list(pre._satisfied):
+            pre[k] = states[k.output]
+    _remove_matched_tasks(schd, {Tokens(cycle='2', task='a').task}, set())
+    now = {k.output: v for pre in f.state.prerequisites
+           for k, v in pre._satisfied.items()}
+    for out, s0 in states.items():
+        want = False if s0 == 'satisfied naturally' else s0
+        if now[out] != want:
+            return False
+    changed = 'satisfied naturally' in states.values()
+    left = any(v == 'force satisfied' for v in states.values())
+    gone = not any(t is f for t in pool.get_tasks())
+    return gone == (changed and not left)
+
+
+def multi(s_x: int, s_suc: int, s_sta: int, parent_in: bool) -> bool:
+    """
+    pre: 0 <= s_x < 3 and 0 <= s_suc < 3 and 0 <= s_sta < 3
+    post: _
+    """
+    s_x, s_suc, s_sta = (fork_int(s_x, 0, 2), fork_int(s_suc, 0, 2),
+                         fork_int(s_sta, 0, 2))
+    parent_in = fork_bool(parent_in)
+    with concrete():
+        return _multi(s_x, s_suc, s_sta, parent_in)
+
+
 def remove(parent_in: bool, pf: int, rm: int, c_sat: int, c_run: bool,
            cf: int, b_a2: int, b_x3: bool, bf: int) -> bool:
     """
@@ -174,7 +223,7 @@ def OBLIGATIONS(tier):
     t = 1200 if big else 160
     return [Ob(f'remove[pf={pf},rm={rm}]', 'remove', timeout=t,
                slice={'pf': pf, 'rm': rm}) for pf in range(3)
-            for rm in range(3)]
+            for rm in range(3)] + [Ob('multi', 'multi', timeout=t)]
 
 
 def VALIDATE():
@@ -183,4 +232,5 @@ def VALIDATE():
     assert _run(True, 0, 0, 1, False, 0, 1, False, 0)
     assert _run(True, 2, 1, 1, False, 0, 2, True, 2)
     assert _run(False, 0, 0, 2, True, 1, 0, False, 0)
-    return n + 3
+    assert _multi(1, 1, 1, True) and _multi(1, 2, 0, False)
+    return n + 5
